@@ -122,6 +122,17 @@ Theorem from_config_of_own_configuration_frozen : forall ops1 j p i,
 Proof. exact from_config_frozen_l. Qed.
 Print Assumptions from_config_of_own_configuration_frozen.
 
+(* "replacing ... components": modify(), then replace_component with ANY kind of replacement `ns` (another instance of the class the node
+   already runs, another class, class + settings, a function), any rewiring, build, and the original and the derivative run: the
+   original shows the nodes, instances, trained state, wiring, aliases, default and name it showed before *)
+Theorem modify_then_replace_by_any_component_frozen : forall ops1 j p name ns f,
+  nth_error (st_pipes (run init ops1)) j = Some p ->
+  let s1 := run init ops1 in let i := length (st_pblds s1) in
+  let s2 := run s1 [PModify j; PBNode i name ns; PBWire i name f; PBuild i; PRun j; PRun (length (st_pipes s1))] in
+  nth_error (st_pipes s2) j = Some p /\ obs_p s2 p = obs_p s1 p.
+Proof. exact modify_replace_frozen_l. Qed.
+Print Assumptions modify_then_replace_by_any_component_frozen.
+
 (* regenerated scan of the source: no component __call__ assigns through an ItemList parameter, through a local bound
    to its contents without a copy, or calls an in-place method on either *)
 Theorem components_do_not_write_itemlists : itemlist_param_writes = [].
@@ -174,4 +185,23 @@ Proof.
   repeat split; try (vm_compute; reflexivity).
   - vm_compute. tauto.
   - vm_compute. discriminate.
+Qed.
+
+(* non-vacuity of modify_then_replace_by_any_component_frozen: a trained pipeline holding a caller's instance ("n") and a by-class learner ("m");
+   in one derivative "n" is replaced by another instance of the SAME class, in another "m" by a new (untrained) instance of its class: the
+   derivatives hold other instances, the second shows other node states with the same wiring, and the original is as it was after both *)
+Example c14_replace_nonvacuous :
+  let ops1 := [PNew (Some "p"); PBNode 0 "a" NSIn; PBNode 0 "n" (NSInst "vcomp:Scale"); PBNode 0 "m" (NSCtor "vcomp:Learner");
+               PBWire 0 "n" (fun w => dset "x" "a" w); PBWire 0 "m" (fun w => dset "x" "n" w); PBuild 0; PTrain 0 "d0" ["vcomp:Learner"]] in
+  let s1 := run init ops1 in
+  exists p, nth_error (st_pipes s1) 0 = Some p /\
+    let s2 := run s1 [PModify 0; PBNode 1 "n" (NSInst "vcomp:Scale"); PBWire 1 "n" (fun w => w); PBuild 1; PRun 0; PRun 1] in
+    let s3 := run s2 [PModify 0; PBNode 2 "m" (NSInst "vcomp:Learner"); PBWire 2 "m" (fun w => w); PBuild 2; PRun 0; PRun 2] in
+    exists q r, nth_error (st_pipes s2) 1 = Some q /\ nth_error (st_pipes s3) 2 = Some r /\
+      obs_p s3 p = obs_p s1 p /\ inst_refs q <> inst_refs p /\ inst_refs r <> inst_refs p /\
+      po_edges (obs_p s3 r) = po_edges (obs_p s1 p) /\ po_nodes (obs_p s3 r) <> po_nodes (obs_p s1 p).
+Proof.
+  cbv zeta. eexists. split; [vm_compute; reflexivity|]. eexists. eexists.
+  split; [vm_compute; reflexivity|]. split; [vm_compute; reflexivity|].
+  repeat split; try (vm_compute; reflexivity); vm_compute; discriminate.
 Qed.
